@@ -719,7 +719,7 @@ impl Property for C10 {
     fn cases(tier: Tier) -> u32 {
         match tier {
             Tier::Quick => 20_000,
-            Tier::Thorough => 600_000,
+            Tier::Thorough => 300_000,
         }
     }
 
